@@ -4,19 +4,19 @@ import json, os
 V = os.path.dirname(os.path.dirname(os.path.abspath(__file__)))
 CLAIMED = {
  "C08": dict(
-   text="seeded search over histories of insertion requests on one mutable problem table (real builder and synthetic tables) against a piecewise-linear reference model of the original table, plus a monitor on every insert call the real pipeline makes; sampling, not proof",
+   text="seeded search over histories of insertion requests on one mutable problem table (real builder and synthetic tables; columns filled, cascades shifted and the temperature scale moved in place between requests) against a piecewise-linear reference model of the original table, plus a monitor on every insert call the real pipeline makes; sampling, not proof",
    note="trusts numpy.interp as the curve model and the 24-name curve-column list written out in worlds/c08.py; row 0 width exempt; fault set empty (in-memory object)",
    technique="deterministic simulation: seeded request histories vs piecewise-linear reference model; in-pipeline call monitor; ddmin replay"),
  "C11": dict(
-   text="seeded search over interleaved call histories of 1-3 simulated callers in one long-lived process (service calls with dict / model / reused-model inputs, PinchProblem load/target/export), with injected aborts (SimAbort, a BaseException, at the n-th library line), injected ordinary exceptions (MemoryError / OSError at the n-th library line, travelling through the library's own handlers), natural failures and clock jumps; every completed call is compared byte-for-byte with the same call in a pristine forked process, inputs and earlier results are re-snapshotted, and a fingerprint of all OpenPinch module state is compared before/after; sampling, not proof",
+   text="seeded search over interleaved call histories of 1-3 simulated callers in one long-lived process (service calls with dict / model / reused-model inputs, PinchProblem load from model / JSON / workbook / CSV bundle, target, export), with injected aborts (SimAbort, a BaseException, at the n-th library line), injected ordinary exceptions (MemoryError / OSError at the n-th library line, travelling through the library's own handlers), natural failures and clock jumps; every completed call is compared byte-for-byte with the same call in a pristine forked process, inputs and earlier results are re-snapshotted, and a fingerprint of all OpenPinch module state is compared before/after; sampling, not proof",
    note="trusts the pristine-fork oracle (cross-validated every run against genuinely fresh interpreters under other PYTHONHASHSEED values) and the module-state fingerprint walker in sim/fingerprint.py; interleaving at call granularity only",
    technique="deterministic simulation with fault injection: seeded scheduler over callers, abort / injected-exception / clock faults, pristine-process oracle, module-state fingerprint, ddmin replay"),
  "C16": dict(
-   text="seeded search over load/target/export histories on PinchProblem wrappers and the bare service, fed by a simulated producer that writes the same logical problem as dict, model, value-with-unit dict, JSON file, CSV bundle (directory and pair) and template workbook on a simulated disk, with read errors, torn files, lost rows, same-mtime rewrites, write errors, aborts and injected ordinary exceptions inside target/export, and clock faults; results compared across channels and with a per-wrapper reference model; exported workbooks re-opened and sheet names checked; sampling, not proof",
+   text="seeded search over load/target/export histories on PinchProblem wrappers and the bare service, fed by a simulated producer that writes the same logical problem as dict, model, value-with-unit dict, JSON file, CSV bundle (directory and pair) and template workbook on a simulated disk, with untouched files loaded again after the caller edited what the first load handed out, read errors, torn files, lost rows, same-mtime rewrites, write errors, aborts and injected ordinary exceptions inside target/export, and clock faults; results compared across channels and with a per-wrapper reference model; exported workbooks re-opened and sheet names checked; sampling, not proof",
    note="trusts openpyxl/pandas as the producer of the simulated files and the two-field wrapper model in worlds/c16.py; cross-file comparisons use rel 1e-9 of total duty, in-memory forms are compared exactly",
    technique="deterministic simulation with fault injection: seeded channel/wrapper histories on a simulated disk and clock, read/write/abort/injected-exception faults, reference model, ddmin replay"),
  "C18": dict(
-   text="seeded search over histories of solve / build_stream_collection / setter / metric-read requests on 1-2 heat-pump cycle objects across the property library's fluids, plus the targeting pipeline's own objective function evaluated on generated multi-unit cascades with every solve/build call it makes monitored, with the first- and second-law clauses evaluated as state invariants after every step and order-independence of emitted stream sets checked against the first answer for the same solved state; sampling, not proof",
+   text="seeded search over histories of solve / build_stream_collection / setter / metric-read requests on 1-2 heat-pump cycle objects across the property library's fluids, plus the targeting pipeline's own objective function evaluated on generated multi-unit cascades with every solve/build call it makes monitored, and its Carnot-style placement objectives evaluated repeatedly with the same argument objects (first law, emitted latent streams, same answer, arguments untouched), with the first- and second-law clauses evaluated as state invariants after every step and order-independence of emitted stream sets checked against the first answer for the same solved state; sampling, not proof",
    note="trusts independent high-level CoolProp PropsSI calls for saturation pressures and regime classification; fault set limited to natural solve failures (no I/O on this surface)",
    technique="deterministic simulation: seeded request histories on cycle objects, state invariants + order-independence oracle, ddmin replay"),
  "C19": dict(
